@@ -600,10 +600,11 @@ func (r *chainRun) ask(step int, st chainStep) (servedSeq int, stale bool) {
 		rep.Inconclusive("chain %s: step %d served a response without a marker the upstream issued: %s", r.cc.Layout, step, strings.ReplaceAll(resp.String(), "\n", " | "))
 		return -1, false
 	}
-	nameOK := call.Name == r.cc.upName(q)
+	// (names compare case-insensitively: spellings of one name may share an entry)
+	nameOK := strings.EqualFold(call.Name, r.cc.upName(q))
 	wantText := fmt.Sprintf("the upstream has to be asked %q", r.cc.upName(q))
 	if call.Hosts { // answered in front of the rewriters: for the client's name itself, or (stored) for the name the cache sees
-		nameOK = call.Name == q.Name || call.Name == r.cc.cacheName(q)
+		nameOK = strings.EqualFold(call.Name, q.Name) || strings.EqualFold(call.Name, r.cc.cacheName(q))
 		wantText = fmt.Sprintf("the plugin in front answers %q (the cache sees %q)", q.Name, r.cc.cacheName(q))
 	}
 	if !nameOK || call.Type != q.Type || call.Class != q.Class || call.Flags != q.flagsText() {
